@@ -605,7 +605,15 @@ class Stage:
                 self._initial.move_to_end(var, last=False)
         for_all_primitives(var, value, action, "First argument to set_initial must be a variable/signal or a simple concatenation of variables/signals")
         if self.master is not None and self.master.is_transcribed:
-            self._method.set_initial(self._augmented, self.master._method, self._initial)
+            # Guesses are expressions of time and of other guesses (also of other stages, e.g. a shared horizon variable),
+            # and localized time grids have guesses of their own: re-evaluate all of them, as a transcription does
+            master_method = self.master._method
+            opti = master_method.opti if hasattr(master_method, 'opti') else master_method
+            for s in self.master.iter_stages(include_self=True):
+                if hasattr(s._method, 'apply_initial'):
+                    s._method.apply_initial(s._augmented, opti, s._initial)
+                else:
+                    s._method.set_initial(s._augmented, master_method, s._initial)
 
     def set_der(self, state, der, scale=1):
         r"""Assign a right-hand side to a state derivative
